@@ -23,6 +23,9 @@ pub(crate) struct PushSocket {
   outgoing_orchestrator: OutgoingMessageOrchestrator,
   pipe_read_to_endpoint_uri: RwLock<HashMap<usize, String>>,
   cached_options: ArcSwap<SocketOptions>,
+  /// Frames of a message that is being sent frame by frame (send() with MORE): they are held back
+  /// until its last frame arrives, so that the whole message is routed to ONE peer.
+  pending_send_parts: parking_lot::Mutex<FrameBatch>,
 }
 
 impl PushSocket {
@@ -33,6 +36,7 @@ impl PushSocket {
       outgoing_orchestrator: OutgoingMessageOrchestrator::new(),
       pipe_read_to_endpoint_uri: RwLock::new(HashMap::new()),
       cached_options: ArcSwap::from(options_snapshot),
+      pending_send_parts: parking_lot::Mutex::new(FrameBatch::new()),
     }
   }
 }
@@ -69,14 +73,31 @@ impl ISocket for PushSocket {
     let sndtimeo = self.cached_options.load().sndtimeo;
     let wait_for_peer = !matches!(sndtimeo, Some(d) if d.is_zero());
 
-    let mut fb = FrameBatch::new();
-    fb.push(msg);
+    // The frames of one message must all go to the same peer: buffer them until the last one.
+    let fb = {
+      let mut pending = self.pending_send_parts.lock();
+      if pending.len() >= FrameBatch::MAX_FRAMES {
+        // The message cannot be completed within the frame limit: refuse it and start afresh.
+        *pending = FrameBatch::new();
+        return Err(ZmqError::ResourceLimitReached);
+      }
+      let more_follows = msg.is_more();
+      pending.push(msg);
+      if more_follows {
+        return Ok(());
+      }
+      std::mem::take(&mut *pending)
+    };
     self.send_with_timeout(fb, wait_for_peer, sndtimeo).await
   }
 
   fn try_send_sync(&self, msg: Msg) -> Result<(), (Msg, ZmqError)> {
     if !self.core.is_running() {
       return Err((msg, ZmqError::InvalidState("Socket is closing".into())));
+    }
+    // Part of a message sent frame by frame: take the asynchronous path, which keeps its frames together.
+    if msg.is_more() || !self.pending_send_parts.lock().is_empty() {
+      return Err((msg, ZmqError::ResourceLimitReached));
     }
     let mut fb = FrameBatch::new();
     fb.push(msg);
